@@ -14,6 +14,21 @@ CLAIMS = {
         'extracted integrity_b is evaluated on the output of both entry points and all three formats.',
    note=TRUST + 'Layer 1 only: that the float DP kernels always emit well-formed paths and the tree builder a valid task list is a monitored premise (checked on every run of the correspondence), not yet a theorem. Rank-order restoration and name preservation are checked on the implementation output, not proved.',
    tech='Coq proof (induction over paths, merges and task lists) + parametric correspondence via hooks'),
+ 'C03': dict(
+   text='Theorems: the merge-sort model returns a permutation for every comparator; (length desc, strncmp 256) is a strict total order on pairwise distinguishable records, so two orders of the same records sort to the same list (C03_canonical_order_unique); for ANY core (guide tree + progressive alignment as a function of the canonically ordered codes) the named rows of two input orders are permutations of each other and acceptance coincides (C03_order_invariance). '
+        'Tie: canonical order and internal codes compared model vs implementation on adversarial name sets; the modelling claim that nothing after the sort reads ranks/names is tested by aligning every input in several record orders through the file API below and above the 100-sequence switch.',
+   note=TRUST + 'glibc qsort is modelled as its merge sort (msort.c); the claim that the downstream code is a function of the canonically ordered codes only (no pointer comparison, no index-dependent tie-break) is tied by the permutation runs, not proved. Names are compared on their first 256 bytes (premise of the theorem; longer common prefixes: see DESIGN section 6, D15).',
+   tech='Coq proof (sorting uniqueness + parametric pipeline) + permutation runs'),
+ 'C13': dict(
+   text='Theorems over the exact values of the binary64 tables the running code holds (regenerated on every run): per-letter margins (C13_exact_margins); premise 1 implies DNA wins for all counts (C13_nucleotide_exact); premise 2 implies protein wins whenever 11.21*#u + 1.204*#acgtn < 10.27*#protein_only, in particular without U (C13_protein_exact); the property as worded is refuted for U-rich protein (C13_premise2_refuted_by_U, recorded finding); the histogram, hence the decision, is invariant under permutation of the sequences (C13_order_independent). '
+        'Tie: the binary64 sums and the decision of the Flocq model are compared bit for bit with detect_alphabet (hook); float decision vs exact decision monitored on every case; premises replayed through the readers with gap-rich presentations.',
+   note=TRUST + 'Partial: that the binary64 summation (<= 52 terms) decides like the exact sum is monitored at run time and tied bit-exactly, not proved (no float error analysis yet). Axioms of the refutation theorem (it evaluates Flocq operations): ClassicalDedekindReals.sig_forall_dec, sig_not_dec, functional_extensionality_dep, Classical_Prop.classic.',
+   tech='Coq proof in exact arithmetic over regenerated tables + bit-exact Flocq correspondence'),
+ 'C14': dict(
+   text='Theorems: in every alphabet kalign_run uses, lower case has the code of upper case and T/t/U/u share one nucleotide code (finite, by vm_compute over tables regenerated from the built library on every run); for ANY core, inputs whose records are byte-wise code-equivalent (any case change, any T/U substitution) and of the same detected kind yield the same names, order and gap pattern, and are accepted or rejected alike (C14_respell_invariance). '
+        'Tie: internal codes of both spellings compared model vs implementation; kalign() run on each input and a random respelling, gap patterns and letters compared.',
+   note=TRUST + 'The biotype of the two spellings is a premise (equal by C13 premise 1 for nucleotide input; for protein the two likelihood tables are case-symmetric, C13_tables_case_symmetric, but the float sums are taken in index order, so equality of the decision near a tie is monitored, not proved).',
+   tech='Coq proof (relational invariance of the pipeline) + regenerated alphabet tables'),
  'C09': dict(
    text='Theorems C09_defaults/override/explicit_default/mismatch/type_words/cli_defaults over the model of aln_param_init and set_aln_type, for all type constants, both kinds and ALL binary32 bit patterns of the three penalties; '
         'the parameter tables inside the theorems are regenerated from the built library and README.md on every run; the hand-written switch/override logic is tied by an exhaustive correspondence over 3 kinds x 8 types x value set^3 and by CLI runs observed through the PARAMS hook.',
